@@ -2,9 +2,15 @@
 import framework as fw, vm
 
 def run(prop, tier, seed, wd, t0):
-    jobs = [vm.reset(tier, [prop]), vm.step_ref(tier, [prop]), vm.fresh(tier, [prop]), vm.execute(tier, [prop])]
+    jobs = [vm.reset(tier, [prop]), vm.step_ref(tier, [prop]), vm.fresh(tier, [prop])]
+    def extra(out):
+        import ctv
+        c1 = ctv.run_family(prop, tier, seed, wd, out, ('h_ctv_hist',), tags=[prop, 'C01', 'C07', 'C16', 'C06'])
+        c2 = ctv.run_family(prop, tier, seed, wd, out, ('h_ctv_exec',), tags=[prop])
+        return {'programs': c1['programs'], 'shapes': c1['shapes']}
     return fw.run_e1(prop, tier, seed, wd, t0, jobs, fw.COMMON_ASSUMPTIONS + [
         'pre-state of reset(): arbitrary state satisfying WF, Inv, Inv_tab (tables inverse, sites hold PB/BREAK) and Inv_en (site armed iff its location is enabled)',
         'observational indistinguishability after reset follows from field-wise equality with VM(original program): the object has no other state'],
         'Layer A: reset() from an arbitrary invariant state equals, field by field, a machine constructed on the original program (all sites passive); '
-        'executeSingle() at HALT returns true and changes nothing; execute() at HALT returns after one step and changes nothing; the constructed machine is empty.')
+        'executeSingle() at HALT returns true and changes nothing; the constructed machine is empty. History obligations (independent of the representation of the VM): on natively '
+        'compiled program shapes with symbolic literals, k steps + reset() + complete stepping run must give exactly the stops and values of the reference, and once the end is reached further execute/executeSingle calls change nothing.', extra=extra)
